@@ -119,7 +119,7 @@ static std::vector<Job> make_jobs(Tier t)
 {
 	build_pool();
 	std::vector<Job> jobs;
-	int dq = 4, dt = 12;    // depth bound quick / thorough (thorough normally reaches closure before the bound)
+	int dq = 4, dt = 16;    // depth bound quick / thorough (thorough normally reaches closure before the bound)
 	int D = t == Quick ? dq : dt;
 	struct Alpha { const char *name; std::vector<std::string> paths; std::vector<int> vals; int dquick; };
 	std::vector<Alpha> alphas = {
@@ -433,7 +433,8 @@ struct Sys {
 			shape += e.shape + "#";
 		}
 		poison(false);
-		if (asan_error() && !bad) fail(opsig + "|asan-in-query", desc + ": a query / enumeration after this step reads memory outside the stored items (AddressSanitizer; slack behind the used part of item arrays is poisoned while querying)");
+		if (asan_error() && !bad) fail(opsig + "|asan-in-query", desc + (job.kind == CXX ? ": a query / enumeration after this step reads memory outside the stored items (AddressSanitizer; the slack behind the used part of the item arrays is poisoned while querying)"
+		                                                                                  : ": a query / enumeration after this step touches released or foreign memory (AddressSanitizer)"));
 		if (job.kind == CXX) shape += raw_shape(*(mpt::buffer **) &root->_sub);
 		// canonical state
 		std::string c = "M:";
@@ -682,6 +683,8 @@ static void explore_store(Run &r, const Job &job)
 {
 	r.additive = false;
 	r.require("nontrivial"); r.require("assign:overwrite"); r.require("query:hit-expected"); r.require("query:absence-expected");
+	r.require("assign:beneath-a-valued-path"); r.require("assign:above-valued-paths"); r.require("assign:value>=250 bytes");
+	r.require("remove:inner-with-keys-beneath"); r.require("remove:leaf"); r.require("remove:absent"); r.require("remove:everything");
 	if (job.kind == CXX) { explore_inproc(r, job); return; }
 	g_phase = (char *) mmap(0, 4096, PROT_READ | PROT_WRITE, MAP_SHARED | MAP_ANONYMOUS, -1, 0);
 	std::unordered_set<Hash128, Hash128H> seen;
